@@ -1276,6 +1276,53 @@ def gen_cauchy_scalars():
 GENERATORS["CauchyScalars.v"] = gen_cauchy_scalars
 
 
+def gen_ls_bookkeeping():
+    """linesearch.line_search: which trial step is handed back - the initialisation of the best trial, its update after every
+    evaluation, and the decisions after the loop - recognised statement by statement (fail-closed)."""
+    L = ["(* GENERATED from /repo/lbfgsb/linesearch.py by harness/translate.py - do not edit *)",
+         "From Coq Require Import List Bool Floats.PrimFloat.", "From LBFGSB Require Import Model.FloatVec.", "Import ListNotations.", ""]
+    lt = ast.parse(_src("linesearch.py"))
+    fn = _func(lt, "line_search")
+    wh = [st for st in fn.body if isinstance(st, ast.While)]
+    if len(wh) != 1 or ast.unparse(wh[0].test) != "_iter < max_iter":
+        raise TranslateError("line_search: loop not found")
+    i0 = fn.body.index(wh[0])
+    init = {ast.unparse(st.target if isinstance(st, ast.AnnAssign) else st.targets[0]): ast.unparse(st.value)
+            for st in fn.body[:i0] if isinstance(st, (ast.Assign, ast.AnnAssign)) and getattr(st, "value", None) is not None}
+    if init.get("best_stp") != "None" or init.get("best_f") != "f0" or init.get("f_m1") != "f0" or init.get("dphi_m1") != "dphi0" or init.get("_iter") != "0":
+        raise TranslateError("line_search: unexpected initialisation " + repr({k: init.get(k) for k in ("best_stp", "best_f", "f_m1", "dphi_m1", "_iter")}))
+    L.append("(* best_stp = None; best_f = f0 *)")
+    L.append("Definition best_init (f0 : float) : option float * float := (None, f0).")
+    fg = [st for st in wh[0].body if isinstance(st, ast.If) and ast.unparse(st.test) == "task[:2] == b'FG'"]
+    if len(fg) != 1 or [ast.unparse(b_) for b_ in fg[0].orelse] != ["break"]:
+        raise TranslateError("line_search: FG branch not found")
+    stm = [ast.unparse(b_) for b_ in fg[0].body]
+    want = ["steplength_0 = steplength", "f_m1, dphi_m1 = sf.fun_and_grad(np.clip(x0 + steplength * d, lb, ub))", "dphi_m1 = dphi_m1.dot(d)",
+            "if f_m1 < best_f:\n    best_f = f_m1\n    best_stp = steplength"]
+    if stm != want:
+        raise TranslateError("line_search: unexpected FG branch " + " | ".join(stm))
+    L.append("(* if f_m1 < best_f: best_f = f_m1; best_stp = steplength *)")
+    L.append("Definition best_update (f_m1 steplength : float) (b : option float * float) : option float * float :=\n"
+             "  if PrimFloat.ltb f_m1 (snd b) then (Some steplength, f_m1) else b.")
+    if [ast.unparse(b_) for b_ in wh[0].orelse] != ["task = b'WARNING: dcsrch did not converge within max iterations'"]:
+        raise TranslateError("line_search: unexpected while-else")
+    tail = [st for st in fn.body[i0 + 1:] if not (isinstance(st, ast.If) and "logger" in ast.unparse(st.test))]
+    ts = [ast.unparse(st) for st in tail]
+    want_tail = ["if steplength is not None:\n    if not np.isfinite(steplength) or steplength == 0.0:\n        task = b'ERROR'\n        return None",
+                 "if task[:4] != b'CONV' and task[:4] != b'WARN':\n    return None", "if best_stp is None:\n    return None",
+                 "steplength = best_stp", "task = b'NEW_X'", "return steplength"]
+    if ts != want_tail:
+        raise TranslateError("line_search: unexpected statements after the loop " + " | ".join(ts))
+    L.append("(* after the loop (steplength = the last step returned by the routine; it is never None on the SciPy >= 1.12 path):\n"
+             "   not finite or == 0.0 -> None; task neither CONV nor WARN -> None; best_stp None -> None; else best_stp *)")
+    L.append("Definition ls_result (last : float) (conv_or_warn : bool) (best : option float) : option float :=\n"
+             "  if negb (is_finite last) || PrimFloat.eqb last 0x0.0p+0%float then None else if negb conv_or_warn then None else best.")
+    return "\n".join(L) + "\n"
+
+
+GENERATORS["LsBook.v"] = gen_ls_bookkeeping
+
+
 def generate():
     """Write the generated files. Returns a list of error strings (empty = ok)."""
     os.makedirs(OUT, exist_ok=True)
